@@ -4,6 +4,8 @@ pub mod explore;
 pub mod json;
 pub mod layouts;
 pub mod patterns;
+pub mod qelem;
+pub mod qoracle;
 pub mod report;
 
 pub use explore::{PivotMode, Policy};
